@@ -293,8 +293,74 @@ def rule_r5(ctx: Context, R: Reporter):
     R.floor("C09.r5", "draw sites inspected for process-lifetime caching", n, 8)
 
 
+def rule_r6(ctx: Context, R: Reporter):
+    """C09.r6  the seed is used as given: wherever the value that reaches a seeding call is stored or re-bound
+    (`self.random_state = E`, `object.__setattr__(self, "random_state", E)`, a keyword `random_state=E`), E is the
+    seed itself, an integer conversion of it, or None -- no arithmetic (a modulus, a hash, abs, a bit mask):
+    a many-to-one map makes distinct seeds produce identical runs."""
+    names = set()
+    for s in ctx.rng.seeds():
+        arg = call_arg(s.call, 0, "seed")
+        if arg is None:
+            continue
+        x = arg
+        while isinstance(x, ast.Call) and x.args:
+            x = x.args[0]
+        if isinstance(x, ast.Attribute):
+            names.add(x.attr)
+        elif isinstance(x, ast.Subscript) and isinstance(x.slice, ast.Constant) and isinstance(x.slice.value, str):
+            names.add(x.slice.value)
+        elif isinstance(x, ast.Name):
+            names.add(x.id)
+    names = {n for n in names if "state" in n or "seed" in n}
+    if not names:
+        raise AnalysisError("C09.r6: name of the seed-carrying value not identified")
+
+    def transparent(e: ast.expr) -> bool:
+        if e is None or (isinstance(e, ast.Constant) and e.value is None):
+            return True
+        if isinstance(e, (ast.Name, ast.Attribute)):
+            return True
+        if isinstance(e, ast.Subscript):
+            return transparent(e.value)
+        if isinstance(e, ast.IfExp):
+            return transparent(e.body) and transparent(e.orelse)
+        if isinstance(e, ast.Call) and dotted(e.func) in ("int", "np.int64", "np.uint32", "operator.index", "getattr") and e.args:
+            return transparent(e.args[0])
+        if isinstance(e, ast.Call) and isinstance(e.func, ast.Attribute) and e.func.attr == "get":
+            return True
+        return False
+
+    n = 0
+    for fi in ctx.prog.functions.values():
+        for x in walk_no_nested(fi.node):
+            val = None
+            what = None
+            if isinstance(x, ast.Assign):
+                for t in x.targets:
+                    if (isinstance(t, ast.Attribute) and t.attr in names) or (isinstance(t, ast.Name) and t.id in names) or \
+                            (isinstance(t, ast.Subscript) and isinstance(t.slice, ast.Constant) and t.slice.value in names):
+                        val, what = x.value, unparse(t)
+            elif isinstance(x, ast.Call) and dotted(x.func) in ("object.__setattr__", "setattr") and len(x.args) == 3 and isinstance(x.args[1], ast.Constant) and x.args[1].value in names:
+                val, what = x.args[2], f"field {x.args[1].value}"
+            elif isinstance(x, ast.Call):
+                for k in x.keywords:
+                    if k.arg in names:
+                        n += 1
+                        R.check("C09.r6", "the seed is passed on unchanged", transparent(k.value), fi, x,
+                                msg=f"{fi.short}: `{k.arg}={unparse(k.value)[:50]}` transforms the seed on its way to the seeding call: a many-to-one map (modulus, hash, mask) "
+                                    f"makes distinct seeds give identical runs", key=f"seed-transformed:{fi.short}:kw")
+            if what is not None:
+                n += 1
+                R.check("C09.r6", "the seed is stored unchanged", transparent(val), fi, x,
+                        msg=f"{fi.short}: `{what}` is set to `{unparse(val)[:60]}`: the seed is transformed before it reaches the seeding call; a many-to-one map (modulus, hash, "
+                            f"mask) makes distinct seeds give identical runs (e.g. s and s + 2**31 - 1)", key=f"seed-transformed:{fi.short}")
+    R.floor("C09.r6", "places where the seed is stored or passed by name", n, 2)
+
+
 def run(ctx: Context, R: Reporter):
     T = Tracer(ctx)
+    R.guard(rule_r6, ctx, R)
     R.guard(rule_r5, ctx, R)
     R.guard(rule_r1, ctx, R, T)
     R.guard(rule_r2, ctx, R, T)
@@ -320,6 +386,8 @@ def variants():
         Variant("r3-time-seed", "bad", insert_before(core, "SamplerCore._initialize_fresh", "self.state.set_current('iter', 0)", "import time\nnp.random.seed(int(time.time()))"), ["C09.r3", "C09.r2", "ANALYSIS-ERROR"]),
         Variant("r2-stream-rewind", "bad", chain(insert_before(core, "SamplerCore.run_sampling", "self.n_total = int(n_total)", "_stream = np.random.get_state()"), insert_after(core, "SamplerCore.run_sampling", "self.pbar.close()", "np.random.set_state(_stream)")), ["C09.r2"], quick=True),
         Variant("r5-global-buffer", "bad", replace_stmt("tempest/steps/mutate.py", "Mutator.run", "u = np.random.rand(self.n_particles, self.n_dim)", "global _U\n_U = np.random.rand(self.n_particles, self.n_dim)\nu = _U"), ["C09.r5"], quick=True),
+        Variant("r6-seed-folded", "bad", insert_before("tempest/config.py", "SamplerConfig.__post_init__", "self.validate()", "if self.random_state is not None:\n    object.__setattr__(self, 'random_state', int(self.random_state) % 2147483647)"), ["C09.r6"], quick=True),
+        Variant("r6-benign-int-conversion", "benign", insert_before("tempest/config.py", "SamplerConfig.__post_init__", "self.validate()", "if self.random_state is not None:\n    object.__setattr__(self, 'random_state', int(self.random_state))")),
         Variant("benign-hoist-seed", "benign", replace_stmt(core, "SamplerCore._initialize_fresh", "np.random.seed(self.config.random_state)", "seed = self.config.random_state\nnp.random.seed(seed)"), quick=True),
         Variant("benign-seed-in-run", "benign", insert_before(core, "SamplerCore.run_sampling", "self.n_total = int(n_total)", "pass")),
     ]
